@@ -1,6 +1,10 @@
 mod c40;
+mod c42;
 use vkit::{Check, Level};
 fn main() {
-    let checks: &[Check] = &[Check { id: "C40", level: Level::Exploration, run: c40::run }];
+    let checks: &[Check] = &[
+        Check { id: "C40", level: Level::Exploration, run: c40::run },
+        Check { id: "C42", level: Level::ModelChecking, run: c42::run },
+    ];
     vkit::main(checks);
 }
